@@ -116,7 +116,7 @@ class LRUCache(Cache):
         Iterates over keys of the cache. From the most recently used to the least recently used.
 
         """
-        return (d[0] for d in self.list)
+        return iter([d[0] for d in self.list])
 
     def __setitem__(self, k: _KT, v: _VT):
         """
@@ -190,7 +190,7 @@ class LFUCache(Cache[_KT, _VT]):
         Iterates over keys of the cache. From the least frequently used to the most frequently used.
 
         """
-        return (d.key for d in self.list)
+        return iter([d.key for d in self.list])
 
     def __setitem__(self, k: _KT, v: _VT):
         """
@@ -204,6 +204,7 @@ class LFUCache(Cache[_KT, _VT]):
 
         if k in self.cache:
             node = self.cache[k]
+            node.data.value = v
             self._inc_freq(node)
         else:
             if len(self.cache) >= self.max_size:
